@@ -325,7 +325,6 @@ def run_convert(ck, hb, bdir, rng, n, stats):
         kind = rng.randint(0, 3)
         f1 = rng.choice([0, 0, 1, 3]); f2 = rng.choice([0, 1, 3])
         o = gen_obj(rng, kind, nonfinite=False, big=False)
-        if sniffed_as_text(o, f1): continue
         jobs.append((o, f1, f2, t)); t += 1
     # fixed witnesses: a binary file whose first byte is a digit is offered to the text reader by auto-detection
     w = lex.d2w
